@@ -6,16 +6,17 @@
 set -u
 ROOT="$(cd "$(dirname "${BASH_SOURCE[0]}")/.." && pwd)"
 N="${1:-32}"
-export VERIF_ROOT="$ROOT" TZ=NPT-5:45
+# (the Miri scenarios are deterministic per (scheduler seed, rate, workload seed) by construction and are left out here)
+export VERIF_ROOT="$ROOT" TZ=NPT-5:45 VERIF_NO_MIRI=1
 T="$ROOT/sim/target/determinism"; mkdir -p "$T"
 if [ -n "$(git -C /repo status --porcelain --untracked-files=no)" ]; then echo "/repo is dirty, refusing"; exit 2; fi
-(cd "$ROOT/sim" && CARGO_NET_OFFLINE=true cargo build --offline --release -p c18 -p c15 -p c03 >/dev/null 2>&1 && CARGO_NET_OFFLINE=true cargo build --offline --profile relchk -p c03 >/dev/null 2>&1) || { echo "build failed"; exit 2; }
+(cd "$ROOT/sim" && CARGO_NET_OFFLINE=true cargo build --offline --release -p c18 -p c15 -p c03 >/dev/null 2>&1 && CARGO_NET_OFFLINE=true cargo build --offline --profile relchk -p c03 >/dev/null 2>&1 && CARGO_NET_OFFLINE=true cargo build --offline --profile devchk -p c03 >/dev/null 2>&1) || { echo "build failed"; exit 2; }
 norm() { python3 - "$1" <<'PY'
 import json,sys
 d=json.load(open(sys.argv[1]))
 def scrub(x):
     if isinstance(x,dict):
-        return {k:scrub(v) for k,v in x.items() if k not in ("wall_s","runs_per_hour","workers","interleavings")}
+        return {k:scrub(v) for k,v in x.items() if k not in ("wall_s","runs_per_hour","workers","interleavings","environment_swarm")}
     if isinstance(x,list): return [scrub(v) for v in x]
     return x
 d=scrub(d)
@@ -25,7 +26,7 @@ PY
 }
 bad=0; total=0
 for seed in $(seq 1 "$N"); do
-  for spec in "c18 --tier quick --runs 4000 --sweep-stride 997" "c15 --tier quick --runs 1500 --no-miri" "c03 --tier quick --calls 6000"; do
+  for spec in "c18 --tier quick --runs 4000 --sweep-stride 997 --no-miri" "c15 --tier quick --runs 1500 --no-miri" "c03 --tier quick --calls 6000"; do
     set -- $spec; bin=$1; shift
     ref=""
     for w in 1 4 16 16; do
